@@ -4,7 +4,8 @@
    pending expiry of label values when a program is reloaded", [add false] the
    code before it), Run/Loader.v (CompileAndRun with the SHA-256 comparison
    modelled as identity of source texts; [compile] and [vmstep] are oracles). *)
-From V Require Import Metrics.StoreAdd Run.Loader Proofs.StoreAddProofs Proofs.LoaderIsolation Proofs.LoaderReload.
+From V Require Import Metrics.StoreAdd Run.Loader Proofs.StoreAddProofs Proofs.LoaderIsolation Proofs.LoaderReload
+  Proofs.LoaderReloadLoad.
 Local Open Scope N_scope.
 
 (* reloading the text that is already running changes nothing at all *)
@@ -22,22 +23,40 @@ Theorem C14_failed_compile_noop :
     compile p src = None -> visible_eq st (load c1 c2 omit compile st p src).
 Proof. exact failed_compile_noop. Qed.
 
-(* FULL STATEMENT (DESIGN.md C14_keep_decl_keeps_data), at the level of a whole
-   load:  if p runs a version whose metric table holds (o, d), the entry
-   (p, o, d) is the store's only entry of p under d's name with d's type and
-   position, and the new text compiles to a table holding the same descriptor d
-   at object o', with pairwise distinct exported names, then after a successful
-   load every tuple of o has, in o', the same datum (value and time) and the
-   same expiry.
-   PROVED HERE: the statement for the Store.Add call that registers (o', d) --
-   the only step of the load that touches the bucket of d's name or the label
-   values of o' when exported names are distinct (C06_add_frame covers the
-   other Add calls of the same load for the store; that they leave o, o' and
-   the data heap alone is by construction of [add], not yet stated as a lemma).
-   Every cell of the old metric -- the datum object itself, hence value and
-   time, AND the pending expiry -- is found under the same tuple in the new
-   metric; the old entry is dropped and the new one is the only entry left with
-   that program, type and position, so no series is duplicated. *)
+(* Main theorem: a reload that keeps a declaration keeps its data.  For a whole
+   successful CompileAndRun of new text [src] for p (result LLoaded), in any
+   state: let (p, o, d) be the store's only entry of p, in the bucket of d's
+   name, with d's type and source position (the metric of the previous
+   version), o an allocated object of p's heap whose ids are fresh and whose
+   label tuples are pairwise distinct.  If the new version's metric table holds
+   the same descriptor d (same kind, exported name, type, keys, position) at
+   object o', and every other exported declaration has another name, then: the
+   new version runs [src]; the bucket holds (p, o', d) in place of (p, o, d) and
+   nothing else changed in it; and every label tuple of o is found in o' with
+   the same datum object -- whose value and time are untouched -- and, with the
+   repaired Add ([ce = true]), the same pending expiry. *)
+Theorem C14_keep_decl_keeps_data :
+  forall (c2 omit : bool) compile st p src st' o d pre post lvs0,
+    load_r true c2 omit compile st p src = (st', LLoaded) ->
+    let h := ps_heap (getp p st) in
+    heap_fresh h -> nlookup o (ph_lvs h) = Some lvs0 ->
+    entries_of (st_index st) (d_name d) = pre ++ mkentry p o d :: post ->
+    (forall v, In v (pre ++ post) -> matches p d v = false) ->
+    d_hidden d = false ->
+    NoDup (map sl_labels (obj_lvs h o)) ->
+    forall hd' ms1 o' ms2,
+      ps_handle (getp p st') = Some hd' -> h_objs hd' = ms1 ++ (o', d) :: ms2 ->
+      (forall o2 d2, In (o2, d2) (ms1 ++ ms2) -> d_hidden d2 = false -> d_name d2 <> d_name d) ->
+      let h' := ps_heap (getp p st') in
+      h_src hd' = src /\
+      entries_of (st_index st') (d_name d) = pre ++ post ++ [mkentry p o' d] /\
+      forall ls x, lv_find ls (obj_lvs h o) = Some x ->
+        lv_find ls (obj_lvs h' o') = Some (mkslv ls (sl_datum x) (sl_expiry x)) /\
+        forall dd, nlookup (sl_datum x) (ph_data h) = Some dd -> nlookup (sl_datum x) (ph_data h') = Some dd.
+Proof. exact (load_keeps_data true). Qed.
+
+(* the same for the single Store.Add call that registers (o', d): fewer
+   hypotheses (no freshness of ids needed) *)
 Theorem C14_keep_decl_keeps_data_partial :
   forall idx h p o o' d pre post,
     entries_of idx (d_name d) = pre ++ mkentry p o d :: post ->
@@ -141,7 +160,24 @@ Example C14_keep_applies :
   obj_lvs h 1 = [].
 Proof. vm_compute. repeat split; reflexivity. Qed.
 
+(* non-vacuity of C14_keep_decl_keeps_data: the comment-only reload of the expiry
+   witness satisfies every hypothesis, and the conclusion is the kept cell *)
+Example C14_keep_load_applies :
+  let st := run_from true true false w1_compile w1_vmstep st_empty [OLoad w_p 0; OLine 0 2; OLine 1 3] in
+  let h := ps_heap (getp w_p st) in
+  snd (load_r true true false w1_compile st w_p 1) = LLoaded /\
+  nlookup 0 (ph_lvs h) = Some (obj_lvs h 0) /\ ph_nexto h = 1 /\ map fst (ph_lvs h) = [0] /\
+  entries_of (st_index st) [103] = [] ++ mkentry w_p 0 (w_g [49]) :: [] /\
+  map (fun x => (sl_labels x, sl_expiry x)) (obj_lvs h 0) = [([[117]], 3600000000000%Z)] /\
+  match ps_handle (getp w_p (fst (load_r true true false w1_compile st w_p 1))) with
+  | Some hd' => h_objs hd' = [] ++ (1, w_g [49]) :: []
+  | None => False
+  end.
+Proof. vm_compute. repeat split; reflexivity. Qed.
+
 Print Assumptions C14_identical_noop.
+Print Assumptions C14_keep_decl_keeps_data.
+Print Assumptions C14_keep_load_applies.
 Print Assumptions C14_failed_compile_noop.
 Print Assumptions C14_keep_decl_keeps_data_partial.
 Print Assumptions C14_no_dup_series_partial.
